@@ -6,6 +6,7 @@ import PycommModel.Client
 import PycommProofs.EncapProofs
 import PycommProofs.LCBasic
 import PycommProofs.LCInv
+import PycommProofs.LCIdle
 namespace Pycomm.Cli
 open Pycomm.Tgt Pycomm.Encap Pycomm.Path
 
@@ -36,14 +37,14 @@ def run {σ} (hook : ObjHook σ) (w : World σ) : List Call → World σ
   | [] => w
   | c :: cs => run hook (call hook w c).1 cs
 
--- STATEMENT CHANGED: `Fresh` additionally states the lengths 4/2/2/4 of the default field values cid/csn/vid/vsn of `Drv` (needed by fo_order: with shorter fields the target's parseFo reads shifted fields, cf. CE4 below).
+-- STATEMENT CHANGED: `Fresh` additionally states the lengths 4/2/2/4 of the default field values cid/csn/vid/vsn of `Drv` (needed by fo_order: with shorter fields the target's parseFo reads shifted fields, cf. CE4 below) and the default start `seqVal = 1` of the sequence counter (used by SeqClientProofs.lean).
 /-- a fresh driver in front of a target that holds no sessions or connections yet
     (the lengths of cid / csn / vid / vsn are those of the default field values of `Drv`) -/
 def Fresh {σ} (w : World σ) : Prop :=
   w.drv.hasSock = false ∧ w.drv.session = some 0 ∧ w.drv.connectionOpened = false ∧ w.drv.targetIsConnected = false ∧
   w.drv.targetCid = none ∧ w.drv.extendedFo = true ∧ w.drv.connectionSize = 4000 ∧ w.drv.context.length = 8 ∧
   w.drv.option = 0 ∧
-  w.drv.cid.length = 4 ∧ w.drv.csn.length = 2 ∧ w.drv.vid.length = 2 ∧ w.drv.vsn.length = 4 ∧
+  w.drv.cid.length = 4 ∧ w.drv.csn.length = 2 ∧ w.drv.vid.length = 2 ∧ w.drv.vsn.length = 4 ∧ w.drv.seqVal = 1 ∧
   w.net.target.base.sessions = [] ∧ w.net.target.base.conns = [] ∧ w.net.target.base.log = [] ∧
   w.net.pending = [] ∧ w.net.sent = [] ∧ w.net.tcpOpen = false ∧
   0 < w.net.target.base.nextSession ∧ w.net.target.base.nextSession < 2 ^ 32 ∧ w.net.target.base.nextCid < 2 ^ 32
@@ -162,7 +163,7 @@ theorem lci_run_inv {σ} (hook : ObjHook σ) (hh : HookOk hook) (S : Prop) (call
 /-- a fresh world satisfies the invariant -/
 theorem lci_fresh_inv {σ} (S : Prop) (w : World σ) (hf : Fresh w) (hp : S → PathOk w.drv.cipPath) :
     lci_Inv S w ∧ lci_Conn w := by
-  obtain ⟨f1, f2, f3, f4, f5, f6, f7, f8, f9, g1, g2, g3, g4, f10, f11, f12, f13, f14, f15, f16, f17, f18⟩ := hf
+  obtain ⟨f1, f2, f3, f4, f5, f6, f7, f8, f9, g1, g2, g3, g4, g5, f10, f11, f12, f13, f14, f15, f16, f17, f18⟩ := hf
   constructor
   · refine ⟨⟨?_, ?_, f17, f18⟩, f8, f9, (fun h => by rw [f1] at h; cases h), ⟨0, f2, fun h => absurd rfl h⟩, ?_⟩
     · rw [f12]; intro e he; cases he
@@ -170,6 +171,43 @@ theorem lci_fresh_inv {σ} (S : Prop) (w : World σ) (hf : Fresh w) (hp : S → 
     · intro hS
       exact ⟨hp hS, g1, g2, g3, g4, Or.inl ⟨f6, f7⟩⟩
   · intro h; rw [f4] at h; cases h
+
+/-- the lifecycle invariant together with the idle invariant of LCIdle.lean, along every history -/
+theorem lci_run_net {σ} (hook : ObjHook σ) (hh : HookOk hook) (F : List Fault) (P : Policy) (calls : List Call) :
+    ∀ (w : World σ), (∀ a, Call.generic a ∈ calls → AvoidsCM a = true) →
+      lci_Inv False w → lci_Conn w → lci_Net F P w →
+      lci_Inv False (run hook w calls) ∧ lci_Net F P (run hook w calls) := by
+  induction calls with
+  | nil => intro w _ hi _ hn; exact ⟨hi, hn⟩
+  | cons c cs ih =>
+    intro w hg hi hc hn
+    obtain ⟨h1, h2⟩ := lci_call_inv hook hh False w c (fun _ _ h => h.elim)
+      (fun a e => hg a (e ▸ List.mem_cons_self)) hi hc
+    have h3 : lci_Net F P (call hook w c).1 := by
+      cases c with
+      | «open» rnd =>
+        have := lci_Net_open hook hh w rnd hn
+        simp only [call]
+        generalize openDrv hook w rnd = r at this ⊢
+        obtain ⟨w', o⟩ := r
+        cases o <;> exact this
+      | close =>
+        have := lci_Net_close hook w hi.ctx8 hn
+        simp only [call]
+        generalize closeDrv hook w = r at this ⊢
+        obtain ⟨w', o⟩ := r
+        cases o <;> exact this
+      | generic a =>
+        have := lci_Net_step hn ((lci_NStep_mutual hook hh FUEL).2.2 w a)
+        simp only [call]
+        generalize genericMessage hook FUEL w a = r at this ⊢
+        obtain ⟨w', o⟩ := r
+        cases o <;> exact this
+    exact ih _ (fun a h => hg a (List.mem_cons_of_mem _ h)) h1 h2 h3
+
+theorem lci_fresh_net {σ} (w : World σ) (hf : Fresh w) : lci_Net w.net.faults w.net.target.base.policy w := by
+  obtain ⟨f1, f2, f3, f4, f5, f6, f7, f8, f9, g1, g2, g3, g4, g5, f10, f11, f12, f13, f14, f15, f16, f17, f18⟩ := hf
+  exact ⟨rfl, rfl, f16, by rw [f1, f15], fun _ => f10⟩
 
 -- PROPERTY THEOREMS
 
@@ -305,5 +343,36 @@ theorem reopen_works {σ} (hook : ObjHook σ) (w : World σ) (rnd : Bytes)
   show (openDrv hook w1 rnd).1.net.target.base.sessions = _
   rw [o3, n4]
   rfl
+
+/-- in every state reachable from a fresh world, a driver without socket (or a closed TCP connection) means
+    that the target holds no session: the hypothesis `hidle` of `reopen_works` holds along every history -/
+theorem reachable_idle {σ} (hook : ObjHook σ) (hh : HookOk hook) (w : World σ) (hf : Fresh w) (calls : List Call)
+    (hg : ∀ a, Call.generic a ∈ calls → AvoidsCM a = true) :
+    let w' := run hook w calls
+    (w'.drv.hasSock = false ∨ w'.net.tcpOpen = false) → w'.net.target.base.sessions = [] := by
+  intro w' h
+  obtain ⟨hi, hc⟩ := lci_fresh_inv False w hf (fun h => h.elim)
+  have hn := (lci_run_net hook hh _ _ calls w hg hi hc (lci_fresh_net w hf)).2
+  apply hn.idle
+  rcases h with h | h
+  · rw [← hn.sock]; exact h
+  · exact h
+
+/-- after ANY history from a fresh world (any call sequence that leaves the Connection Manager to the driver),
+    on a target that accepts sessions and with an empty fault plan: close() followed by open() registers a
+    fresh session -/
+theorem reopen_after_any_history {σ} (hook : ObjHook σ) (hh : HookOk hook) (w : World σ) (hf : Fresh w)
+    (calls : List Call) (hg : ∀ a, Call.generic a ∈ calls → AvoidsCM a = true) (rnd : Bytes)
+    (hpol : w.net.target.base.policy.sessionOk = true) (hfault : w.net.faults = []) :
+    let w' := run hook w calls
+    let w1 := (closeDrv hook w').1
+    let r := openDrv hook w1 rnd
+    r.2 = .ok true ∧ r.1.drv.session = some w1.net.target.base.nextSession ∧
+    r.1.net.target.base.sessions = [w1.net.target.base.nextSession] ∧ r.1.drv.connectionOpened = true := by
+  intro w'
+  obtain ⟨hi, hc⟩ := lci_fresh_inv False w hf (fun h => h.elim)
+  obtain ⟨hi', hn⟩ := lci_run_net hook hh _ _ calls w hg hi hc (lci_fresh_net w hf)
+  exact reopen_works hook w' rnd (by rw [hn.pol]; exact hpol) (by rw [hn.faults]; exact hfault) hi'.ctx8 hi'.opt0
+    ⟨hi'.t.ns, hn.ns0⟩ (reachable_idle hook hh w hf calls hg)
 
 end Pycomm.Cli
